@@ -1,7 +1,7 @@
 (* Properties/C11.v — obligations for C11 (unsafe code never performs an invalid access).
    Only statements, `exact`, and Print Assumptions live here. *)
 From Coq Require Import ZArith List Bool.
-From V Require Import F64 StrainsVec StrainsVecProofs.
+From V Require Import F64 StrainsVec StrainsVecProofs Tables Owner OwnerProofs.
 Import ListNotations.
 Open Scope Z_scope.
 
@@ -52,3 +52,44 @@ Theorem C11_sv_sort_unique : forall l l' : list Z,
   Permutation.Permutation l l' -> Sorted.Sorted desc l' -> l' = sort_desc_list l.
 Proof. exact any_desc_sort_agrees. Qed.
 Print Assumptions C11_sv_sort_unique.
+
+(* ---- hand-extended lifetimes ---------------------------------------------------------------
+   OsuGradualDifficulty / TaikoGradualDifficulty keep references into a boxed slice they own
+   themselves; BeatmapState::point_split re-types a scratch vector of raw pointers as &[&str]
+   for the duration of one call.  Model/Owner.v is the heap / ownership model; the facts it
+   rests on (field order, no reassignment after `new`, not Clone, the exact shape of
+   point_split and that nothing else touches the scratch vector) are re-read from the source
+   by the translator on every run (Tables.lifetime_facts). *)
+
+(* every history of moves, method calls, unrelated allocations and frees, and drop: no use
+   follows a reference into freed memory, no cell is freed twice *)
+Theorem C11_gradual_self_reference_safe : forall (h : heap) (n : nat) (ops : list hop),
+  fault (run_hist false h n ops) = false.
+Proof. exact history_safe. Qed.
+Print Assumptions C11_gradual_self_reference_safe.
+
+(* ... and the drop at the end releases both cells (alive until then) exactly once *)
+Theorem C11_gradual_drop_releases : forall (h : heap) (n : nat) (ops : list hop),
+  ~ In HDrop ops ->
+  let s := run_hist false h n ops in
+  let s' := hstep false s HDrop in
+  cv s' = None /\ fault s' = false /\
+  is_live (hp s') (length h) = false /\ is_live (hp s') (S (length h)) = false /\
+  is_live (hp s) (length h) = true /\ is_live (hp s) (S (length h)) = true.
+Proof. exact drop_frees_both. Qed.
+Print Assumptions C11_gradual_drop_releases.
+
+(* the decoder's scratch vector: over any sequence of lines and curve-point lists, every
+   pointer read points into the line being parsed and none survives the call *)
+Theorem C11_point_split_safe : forall ops : list dop, Forall no_touch ops ->
+  d_fault (drun true ops) = false /\ d_buf (drun true ops) = [].
+Proof. exact scratch_safe. Qed.
+Print Assumptions C11_point_split_safe.
+
+(* the source facts the two theorems are conditional on hold in the current tree *)
+Theorem C11_lifetime_facts_now : forallb snd lifetime_facts = true.
+Proof. exact tables_lifetime_facts. Qed.
+Print Assumptions C11_lifetime_facts_now.
+Theorem C11_lifetime_facts_present : (16 <= length lifetime_facts)%nat.
+Proof. exact tables_lifetime_facts_present. Qed.
+Print Assumptions C11_lifetime_facts_present.
